@@ -151,6 +151,34 @@ fn wrap_component() -> CompDef {
     CompDef { name: "Wrap".into(), params: vec![], rest: None, body: vec![S::Text("<w>".into()), S::Print(E::Var("body".into())), S::Text("</w>".into())] }
 }
 
+/// the chain as engine sources (observed bodies, shuffled public names, the `Wrap` library):
+/// (sources, template names root first, per template the blocks it or an ancestor defines)
+pub fn chain_sources(spec: &ChainSpec) -> (Vec<(String, String)>, Vec<String>, Vec<Vec<String>>) {
+    let (tpls, _) = build(spec);
+    let suffix = if spec.auto { ".html" } else { ".txt" };
+    let mut public: Vec<String> = (0..tpls.len()).map(|i| format!("n{}{}", i, suffix)).collect();
+    shuffle(&mut public, spec.order);
+    let rename = |n: &str| -> String { public[n[1..].parse::<usize>().unwrap()].clone() };
+    let mut sources = vec![("lib".to_string(), Tpl { body: vec![], autoescape: false, parent: None, components: vec![wrap_component()] }.source())];
+    let mut order = vec![];
+    let mut known: Vec<String> = vec![];
+    let mut names = vec![];
+    for (n, t) in &tpls {
+        let mut t = t.clone();
+        for b in t.blocks().keys() {
+            if !known.contains(b) {
+                known.push(b.clone());
+            }
+        }
+        names.push(known.clone());
+        t.body = stmtgen::with_obs(t.body, false);
+        t.parent = t.parent.as_ref().map(|p| rename(p));
+        sources.push((rename(n), t.source()));
+        order.push(rename(n));
+    }
+    (sources, order, names)
+}
+
 pub fn check_chain(spec: &ChainSpec, ctx: &Ctx, salt: u64, l: &mut Local) -> Check {
     let (tpls, names) = build(spec);
     // observation points everywhere (state flows through blocks in document order)
